@@ -339,7 +339,7 @@ func (lw *loopWorld) exec(f []string) {
 		switch o.kind {
 		case "tcp":
 			rw = o.conn
-		case "fifo", "regular":
+		case "fifo", "fifow", "regular":
 			rw = o.file
 		case "adapter":
 			rw = o.adp
@@ -361,7 +361,7 @@ func (lw *loopWorld) exec(f []string) {
 		switch o.kind {
 		case "tcp":
 			o.conn.Cancel()
-		case "fifo", "regular":
+		case "fifo", "fifow", "regular":
 			o.file.Cancel()
 		case "adapter":
 			o.adp.Cancel()
@@ -374,7 +374,7 @@ func (lw *loopWorld) exec(f []string) {
 		switch o.kind {
 		case "tcp":
 			err = o.conn.Close()
-		case "fifo", "regular":
+		case "fifo", "fifow", "regular":
 			err = o.file.Close()
 		case "adapter":
 			err = o.adp.Close()
@@ -660,7 +660,7 @@ func (lw *loopWorld) rawFd(o *loopObj) int {
 	switch o.kind {
 	case "tcp":
 		return o.conn.RawFd()
-	case "fifo", "regular":
+	case "fifo", "fifow", "regular":
 		return o.file.RawFd()
 	case "adapter":
 		return o.adp.RawFd()
@@ -709,7 +709,7 @@ func (lw *loopWorld) peer(f []string) {
 			}
 		}
 	case "close":
-		if o.kind == "fifo" {
+		if o.kind == "fifo" || o.kind == "fifow" {
 			if o.peerFd >= 0 {
 				_ = syscall.Close(o.peerFd)
 				o.peerFd = -1
@@ -742,6 +742,18 @@ func (lw *loopWorld) peer(f []string) {
 		var got []byte
 		if o.kind == "fifo" {
 			res = "n/a"
+		} else if o.kind == "fifow" {
+			buf := make([]byte, 1<<16)
+			for o.peerFd >= 0 {
+				n, err := syscall.Read(o.peerFd, buf)
+				if n > 0 {
+					got = append(got, buf[:n]...)
+				}
+				if err != nil || n <= 0 {
+					break
+				}
+			}
+			res = fmt.Sprintf("len=%d data=%s", len(got), hexOrDash(got))
 		} else if o.peer != nil {
 			buf := make([]byte, 1<<16)
 			for {
@@ -865,7 +877,7 @@ func (lw *loopWorld) finish() {
 					}
 				}
 			case "write":
-				if o.kind == "tcp" || o.kind == "adapter" {
+				if o.kind == "tcp" || o.kind == "adapter" || o.kind == "fifow" {
 					lw.peer([]string{"peer", strconv.Itoa(op.obj), "drain"})
 				}
 			case "timer":
@@ -962,6 +974,22 @@ func (lw *loopWorld) newObj(k int, kind string) string {
 			return "fail-open-peer"
 		}
 		o.peerFd = fd
+	case "fifow":
+		// the library holds the write end, the harness the read end
+		o.path = filepath.Join(lw.tmp, fmt.Sprintf("fifow%d", k))
+		if err := syscall.Mkfifo(o.path, 0o600); err != nil {
+			return "fail-mkfifo"
+		}
+		fd, err := syscall.Open(o.path, os.O_RDONLY|syscall.O_NONBLOCK, 0)
+		if err != nil {
+			return "fail-open-peer"
+		}
+		o.peerFd = fd
+		f, err := sonic.Open(lw.ioc, o.path, os.O_WRONLY|syscall.O_NONBLOCK, 0)
+		if err != nil {
+			return "fail-open"
+		}
+		o.file = f
 	case "regular":
 		o.path = filepath.Join(lw.tmp, fmt.Sprintf("reg%d", k))
 		data := make([]byte, 256)
@@ -1059,7 +1087,7 @@ func (lw *loopWorld) cleanup() {
 				switch o.kind {
 				case "tcp":
 					_ = o.conn.Close()
-				case "fifo", "regular":
+				case "fifo", "fifow", "regular":
 					_ = o.file.Close()
 				case "adapter":
 					_ = o.adp.Close()
@@ -1527,6 +1555,15 @@ func loopEnum(args []string, w *bufio.Writer) {
 	// 9. an adapted net.Conn whose write fails half way (deadline): the count is what was moved
 	for _, a := range []string{"write", "writeall"} {
 		emit("obj 1 adapter", "wdeadline 1 20", a+" 1 400000 op=11", "poll", "pending", "peer 1 drain", "pending")
+	}
+	// 9b. the write end of a FIFO: partial writes into a full pipe, and the reader going away while a write is deferred
+	// (the kernel reports EPOLLERR alone, the registered handler must still run)
+	for _, a := range []string{"write", "writeall"} {
+		emit("obj 1 fifow", a+" 1 70000 op=11", "pending", "peer 1 drain", "poll", "peer 1 drain", "poll", "pending")
+		emit("obj 1 fifow", a+" 1 70000 op=11", "pending", "peer 1 close", "poll", "poll", "pending")
+		emit("obj 1 fifow", a+" 1 100 op=11", "peer 1 drain", a+" 1 70000 op=12", "cancel 1", "pending", "close 1", "pending")
+		emit("obj 1 fifow", "write 1 65536 op=11", a+" 1 100 op=12", "pending", "peer 1 close", "poll", "poll", "pending")
+		emit("obj 1 fifow", "write 1 65536 op=11", a+" 1 100 op=12", "pending", "peer 1 drain", "poll", "peer 1 drain", "pending")
 	}
 	// 10. a registration that fails because the descriptor was closed underneath and its number reused
 	for _, kind := range []string{"fifo", "tcp"} {
